@@ -410,7 +410,11 @@ Proof.
       destruct (r =? n - 1) eqn:R1; destruct (r =? 0) eqn:R0.
     1-12: unfold rv; repeat constructor; cbn [In]; intros Hin; split_or Hin; pinj Hin; lia.
     1-12: intros [x y]; rewrite sphere_links by lia; split;
-      [ intros H; cbn [In] in H; split_or H; pinj H; subst x y; sph_wits L r i0
+      [ intros H; cbn [In] in H; split_or H; pinj H; subst x y;
+        [ first [sph_fan_wit L i0 | sph_quad_wit L r i0]
+        | first [sph_fan_wit L (i0 - 1) | sph_fan_wit L (L - 1) | sph_quad_wit L r (i0 - 1) | sph_quad_wit L r (L - 1)]
+        | first [sph_fan_wit L (i0 - 1) | sph_fan_wit L (L - 1) | sph_quad_wit L (r - 1) (i0 - 1) | sph_quad_wit L (r - 1) (L - 1)]
+        | first [sph_fan_wit L i0 | sph_quad_wit L (r - 1) i0] ]
       | intros [[i [Hi H]]|[j [i [Hj [Hi H]]]]]; cbv zeta in H;
         [ | assert (0 <= j * L) by (apply Z.mul_nonneg_nonneg; lia);
             assert ((j + 1) * L <= (n - 1) * L) by (apply Z.mul_le_mono_nonneg_r; lia) ];
